@@ -14,7 +14,16 @@ from concurrent.futures import ThreadPoolExecutor
 VERIF = os.path.dirname(os.path.dirname(os.path.abspath(__file__)))
 HARNESS = os.path.join(VERIF, "harness")
 BUILD = os.environ.get("PV_BUILD") or os.path.join(VERIF, ".build")
-REPO = "/repo"
+REPO = os.environ.get("PV_REPO") or "/repo"
+if REPO != "/repo":
+    # development aid: run the same harnesses against another checkout (e.g. a scratch worktree with a
+    # seeded change) without touching /repo: a copy of the harness crate with rewritten path dependencies
+    _copy = os.path.join(BUILD, "harness-src")
+    os.makedirs(BUILD, exist_ok=True)
+    subprocess.run(["rsync", "-a", "--delete", "--exclude", "target", HARNESS + "/", _copy + "/"], check=True)
+    _ct = open(os.path.join(_copy, "Cargo.toml")).read().replace('"/repo/', '"%s/' % REPO.rstrip("/"))
+    open(os.path.join(_copy, "Cargo.toml"), "w").write(_ct)
+    HARNESS = _copy
 sys.path.insert(0, os.path.join(VERIF, "driver"))
 from props import PROPS, STUB_SETS  # noqa: E402
 
@@ -239,8 +248,8 @@ def functions_encoded(rec):
     for p in props:
         sl = p.get("sourceLocation", {})
         f = sl.get("file", "")
-        if f.startswith("/repo/") or "/repo/" in f:
-            fns.add("%s::%s" % (f.split("/repo/")[-1], sl.get("function", "?")))
+        if (REPO + "/") in f:
+            fns.add("%s::%s" % (f.split(REPO + "/")[-1], sl.get("function", "?")))
     return sorted(fns)
 
 
@@ -291,6 +300,20 @@ def native_replay(binary, harness, vals):
     rc, out = sh([binary, harness, arg], env={"RUST_BACKTRACE": "0"}, timeout=300)
     last = [l for l in out.strip().splitlines() if l.strip()]
     return rc, (last[-1] if last else ""), out
+
+
+def same_failure(check, native_last):
+    """The native panic must be the assertion the solver violated (messages modulo quoting)."""
+    norm = lambda x: re.sub(r"\s+", " ", (x or "").replace('"', "").replace("REPRODUCED:", "")).strip()
+    a, b = norm(check), norm(native_last)
+    if not a or not b:
+        return False
+    if a in b or b in a:
+        return True
+    # Kani reports overflow / bounds panics with its own wording
+    generic = ("attempt to", "overflow", "index out of bounds", "out of range", "unwrap", "slice index", "byte index",
+               "is not a char boundary", "unreachable")
+    return any(g in a for g in generic) or any(g in b for g in generic)
 
 
 def write_replay(prop, h, check, vals, native, kind):
@@ -489,13 +512,18 @@ def handle_failure(prop, h, r, target_dir, extra, env, mem_kb, timeout_s, violat
             log(out[-1500:])
             return
         bins["release" if rel else "dev"] = b
+    other_panic = None
     for check, vals in tests:
         native = {}
         repro = False
         for prof, b in bins.items():
             rc, last, _ = native_replay(b, h["full"], vals)
             native[prof] = last
-            repro = repro or rc == 1
+            if rc == 1:
+                if same_failure(check, last):
+                    repro = True
+                else:
+                    other_panic = (check, last)
         log("     check=%r values=%s -> %s" % (check, vals, native))
         if repro:
             path = write_replay(prop, h, check, vals, native, "reproduced")
@@ -505,6 +533,10 @@ def handle_failure(prop, h, r, target_dir, extra, env, mem_kb, timeout_s, violat
             return
     # nothing reproduced natively
     check, vals = tests[0]
+    if other_panic:
+        inconclusive.append("%s: solver counterexample for %r panics natively with a different message (%r); "
+                            "stub/model and real dependency differ here" % (h["name"], other_panic[0], other_panic[1]))
+        return
     if cfg.get("ub_model_only_is_violation") and all(MEMSAFE.search(c or "") for c, _ in tests):
         path = write_replay(prop, h, check, vals, {}, "model-only (undefined-behaviour class; cannot panic natively)")
         r["replay"] = path
